@@ -254,6 +254,7 @@ int main(int argc, char** argv) {
         }
     }
     if (targets.empty()) { std::fprintf(out, "{\"e\":\"end\"}\n"); std::fclose(out); return 0; }
+    std::fflush(out); // the set-up events survive whatever happens in the concurrent phase
     unsigned long before[3];
     for (int p = 0; p < 3; ++p) before[p] = regs[p]->checksum();
     std::atomic<bool> stop{false};
